@@ -346,8 +346,10 @@ def r_cells(model, rep):
                         or (src[0] == "call" and src[1] == ("global", "six.iteritems") and T.norm_items(src[2][0]) == container)
                 return False
             cell = ("sub", ("sub", tab, vkey), akey)
+            # conditions that mention the version are evaluated at the current version: nothing may remain
+            sc = facts.at_version(cx, V)
             ok = draws_key(vkey, its[0], tab) and draws_key(akey, its[1], ("sub", tab, vkey)) and its[2] == cell \
-                and not facts.non_gate_guards(ad)
+                and all(sc.truth(g[0]) is g[1] for g in facts.non_gate_guards(ad))
             msg = "every record of payload/images/<variant>/<arch> must be filed with add(<same variant>, <same arch>, image)"
             if ok:
                 i = ("elem", ad.loops[2][1], ad.loops[2][0])
@@ -599,7 +601,7 @@ def section_prefixes_of_property(model, qname, prop):
                 if a[0] == "fmt" and len(a[1]) == 2 and a[1][0][0] == "const" and T.attr_chain(a[1][1]) == "%s.uid" % cx.selfname:
                     out.add(a[1][0][1])
                 else:
-                    raise AnalysisError("%s.%s: unexpected section name shape %s" % (qname, prop, T.show(a)))
+                    out.add("<unrecognised: %s>" % T.show(a)[:40])
     reads = set()
     for ev in cx.events:
         for t in [ev.value] + [g[0] for g in ev.guards]:
@@ -1183,10 +1185,10 @@ def r_upgrade_reloadable(model, rep):
     the identity-collision refusal of Images.add is gated on the header version"""
     f = model.own_method("images.Images", "add")
     cx = facts.fctx(model, f)
-    gated = [ev for ev in cx.events if ev.kind == "raise" and any(facts.gate_term_value(g[0], (1, 0)) is not None for g in ev.guards)
+    gated = [ev for ev in cx.events if ev.kind == "raise" and any(facts.mentions_version(g[0]) for g in ev.guards)
              and any(T.contains(g[0], lambda x: x[0] == "call" and x[1] == ("global", "identify_image")) for g in ev.guards)]
     if not gated:
-        inl = [ev for ev in cx.events if ev.kind == "raise" and any(facts.gate_term_value(g[0], (1, 0)) is not None for g in ev.guards)]
+        inl = [ev for ev in cx.events if ev.kind == "raise" and any(facts.mentions_version(g[0]) for g in ev.guards)]
         gated = [ev for ev in inl if any(e2.kind == "call" and e2.value[1] == ("global", "identify_image") for e2 in cx.events)]
     cls = model.cls("images.Images")
     rechecked = False
